@@ -172,6 +172,8 @@ def worker_main(prop_id, tier, w, nworkers, seed, outfile):
                       phases=[Phase.generate, Phase.shrink])
             @given(mod.strategy(tier))
             def prop(case):
+                if state.get("give_up"):
+                    return
                 if state["failing"] is not None:
                     state["calls_after_fail"] += 1
                     over = state["calls_after_fail"] > shrink_cap or time.time() - state["failed_at"] > shrink_s
@@ -194,7 +196,7 @@ def worker_main(prop_id, tier, w, nworkers, seed, outfile):
                     except Exception:  # noqa
                         pass
                     if st["timeouts"] > 2:
-                        raise
+                        state["give_up"] = True   # stop searching in this worker; the driver reports INCONCLUSIVE
                     return
                 if state["failing"] is None:
                     account(case, oc)
